@@ -277,3 +277,276 @@ Theorem clk2r_b_sound :
        Clock2r.clk2r_b cf s = true -> Clock2r.Clk2r cf s.
 Proof. exact Clock2r.clk2r_b_sound. Qed.
 Print Assumptions clk2r_b_sound.
+
+(* ---- Clock2p ---- *)
+From CiwV.Inv Require Clock2p.
+
+Theorem event_step_clk2p_tiny :
+  forall (cf : State2.config) (s : State2.sim) 
+         (d : State2.draws) (s' : State2.sim),
+       Clock2p.tiny cf = true ->
+       Clock2p.Clk2pt cf s ->
+       Clock2.DrawsOK d ->
+       Engine2.event_step cf
+         (RecordSet.set State2.dr (fun _ : State2.draws => d) s) =
+       State2.Ok (tt, s') ->
+       Clock2p.Clk2pt cf s' /\ BinInt.Z.le (State2.now s) (State2.now s').
+Proof. exact Clock2p.event_step_clk2p_tiny. Qed.
+Print Assumptions event_step_clk2p_tiny.
+
+Theorem run_many_clk2p_tiny :
+  forall cf : State2.config,
+       Clock2p.tiny cf = true ->
+       forall (ds : list State2.draws) (s s' : State2.sim),
+       Clock2p.Clk2pt cf s ->
+       List.Forall Clock2.DrawsOK ds ->
+       Codec2.run_many cf s ds = State2.Ok s' ->
+       Clock2p.Clk2pt cf s' /\ BinInt.Z.le (State2.now s) (State2.now s').
+Proof. exact Clock2p.run_many_clk2p_tiny. Qed.
+Print Assumptions run_many_clk2p_tiny.
+
+Theorem run_many_monotone2p_tiny :
+  forall cf : State2.config,
+       Clock2p.tiny cf = true ->
+       forall (ds1 ds2 : list State2.draws) (s s1 s2 : State2.sim),
+       Clock2p.Clk2pt cf s ->
+       List.Forall Clock2.DrawsOK ds1 ->
+       List.Forall Clock2.DrawsOK ds2 ->
+       Codec2.run_many cf s ds1 = State2.Ok s1 ->
+       Codec2.run_many cf s1 ds2 = State2.Ok s2 ->
+       BinInt.Z.le (State2.now s) (State2.now s1) /\
+       BinInt.Z.le (State2.now s1) (State2.now s2).
+Proof. exact Clock2p.run_many_monotone2p_tiny. Qed.
+Print Assumptions run_many_monotone2p_tiny.
+
+Theorem Clk2pt_means :
+  forall (cf : State2.config) (s : State2.sim),
+       Clock2p.Clk2pt cf s ->
+       Clock2r.Clk2r cf s /\
+       Clock2p.LinkD s /\
+       (forall (nd : State2.node) (nc : State2.ncfg) 
+          (sv : State2.server) (c : BinNums.Z),
+        List.In nd (State2.nodes s) ->
+        Engine2.nthZ (State2.cf_nodes cf)
+          (BinInt.Z.sub (State2.n_id nd) (BinNums.Zpos BinNums.xH)) = 
+        Some nc ->
+        Engine2.nd_inf nd = false ->
+        Engine2.nc_slotted nc = false ->
+        List.In sv (State2.n_servers nd) ->
+        State2.sv_cust sv = Some c ->
+        exists (x : State2.ind) (e d : BinNums.Z),
+          Engine2.find_ind c (State2.inds s) = Some x /\
+          State2.i_server x = Some (State2.sv_id sv) /\
+          State2.i_node x = Some (State2.n_id nd) /\
+          State2.i_send x = Some e /\
+          State2.sv_next_end sv = Some d /\
+          BinInt.Z.le (State2.now s) d /\ BinInt.Z.le d e) /\
+       (forall (x : State2.ind) (tl : BinNums.Z),
+        List.In x (State2.inds s) ->
+        State2.i_smark x = BinNums.Zpos BinNums.xH ->
+        State2.i_tleft x = Some tl -> BinInt.Z.le BinNums.Z0 tl).
+Proof. exact Clock2p.Clk2pt_means. Qed.
+Print Assumptions Clk2pt_means.
+
+Theorem event_step_linkb :
+  forall (cf : State2.config) (s : State2.sim) 
+         (d : State2.draws) (s' : State2.sim),
+       Clock2p.tiny cf = true ->
+       Clock2p.LinkB s ->
+       Engine2.event_step cf
+         (RecordSet.set State2.dr (fun _ : State2.draws => d) s) =
+       State2.Ok (tt, s') -> Clock2p.LinkB s'.
+Proof. exact Clock2p.event_step_linkb. Qed.
+Print Assumptions event_step_linkb.
+
+Theorem run_many_linkb :
+  forall cf : State2.config,
+       Clock2p.tiny cf = true ->
+       forall (ds : list State2.draws) (s s' : State2.sim),
+       Clock2p.LinkB s ->
+       Codec2.run_many cf s ds = State2.Ok s' -> Clock2p.LinkB s'.
+Proof. exact Clock2p.run_many_linkb. Qed.
+Print Assumptions run_many_linkb.
+
+Theorem LinkB_LinkD :
+  forall s : State2.sim, Clock2p.LinkB s -> Clock2p.LinkD s.
+Proof. exact Clock2p.LinkB_LinkD. Qed.
+Print Assumptions LinkB_LinkD.
+
+Theorem c_preempt_clock :
+  forall (cf : State2.config) (inf_at : BinNums.Z -> bool)
+         (t : BinNums.Z) (nn : nat),
+       Clock2p.tiny cf = true ->
+       forall
+         (rel : BinNums.Z -> BinNums.Z -> BinNums.Z -> bool -> Engine2.M unit)
+         (j v c : BinNums.Z),
+       Renege2.sp
+         (fun s : State2.sim =>
+          Clock2r.InvX cf inf_at t nn Renege2.TNone s /\
+          Clock2p.PVpre j v c s) (Clock2r.InvX cf inf_at t nn Renege2.TNone)
+         (Renege2.preempt_body cf rel j v c) Renege2.top.
+Proof. exact Clock2p.c_preempt_clock. Qed.
+Print Assumptions c_preempt_clock.
+
+Theorem clk2r_not_inductive_under_resume_refuted :
+  exists
+         (cf : State2.config) (s : State2.sim) (d : State2.draws) 
+       (s1 s2 : State2.sim),
+         Clock2p.scope_p cf = true /\
+         Clock2.DrawsOK d /\
+         Clock2r.clk2r_b cf s = true /\
+         Clock2p.linkd_b s = false /\
+         Codec2.run_many cf s (d :: nil) = State2.Ok s1 /\
+         Codec2.run_many cf s (d :: d :: nil) = State2.Ok s2 /\
+         Clock2r.clk2r_b cf s1 = false /\
+         (exists x : State2.ind,
+            List.In x (State2.inds s1) /\
+            State2.i_smark x = BinNums.Zpos BinNums.xH /\
+            State2.i_tleft x = Some (BinNums.Zneg (BinNums.xO BinNums.xH))) /\
+         State2.now s1 =
+         BinNums.Zpos (BinNums.xO (BinNums.xO (BinNums.xO BinNums.xH))) /\
+         State2.now s2 = BinNums.Zpos (BinNums.xO (BinNums.xI BinNums.xH)).
+Proof. exact Clock2p.clk2r_not_inductive_under_resume_refuted. Qed.
+Print Assumptions clk2r_not_inductive_under_resume_refuted.
+
+Theorem preempt_needs_server :
+  forall (cf : State2.config) (f : nat) (j v i : BinNums.Z)
+         (s : State2.sim) (u : unit) (s' : State2.sim),
+       Engine2.preempt cf (S f) j v i s = State2.Ok (u, s') ->
+       exists (vx : State2.ind) (sid : BinNums.Z),
+         Engine2.find_ind v (State2.inds s) = Some vx /\
+         State2.i_server vx = Some sid.
+Proof. exact Clock2p.preempt_needs_server. Qed.
+Print Assumptions preempt_needs_server.
+
+Theorem preempt_tleft_partial :
+  forall (cf : State2.config) (f : nat) (j v i : BinNums.Z)
+         (s : State2.sim) (u : unit) (s' : State2.sim) 
+         (nc : State2.ncfg) (vx : State2.ind),
+       Engine2.preempt cf (S f) j v i s = State2.Ok (u, s') ->
+       Engine2.nthZ (State2.cf_nodes cf)
+         (BinInt.Z.sub j (BinNums.Zpos BinNums.xH)) = 
+       Some nc ->
+       State2.nc_preempt nc <>
+       BinNums.Zpos (BinNums.xO (BinNums.xO BinNums.xH)) ->
+       Engine2.find_ind v (State2.inds s) = Some vx ->
+       option_map State2.i_tleft (Engine2.find_ind v (State2.inds s')) =
+       Some
+         (Some
+            (BinInt.Z.sub (Engine2.numo (State2.i_send vx)) (State2.now s))) /\
+       (forall k : BinNums.Z,
+        k <> v ->
+        option_map State2.i_tleft (Engine2.find_ind k (State2.inds s')) =
+        option_map State2.i_tleft (Engine2.find_ind k (State2.inds s))).
+Proof. exact Clock2p.preempt_tleft_partial. Qed.
+Print Assumptions preempt_tleft_partial.
+
+Theorem preempt_at_boundary_partial :
+  forall (cf : State2.config) (f : nat) (j v i : BinNums.Z)
+         (s : State2.sim) (u : unit) (s' : State2.sim) 
+         (nc : State2.ncfg) (nd : State2.node) (sv : State2.server),
+       Clock2p.Clk2p cf s ->
+       Engine2.preempt cf (S f) j v i s = State2.Ok (u, s') ->
+       Engine2.nthZ (State2.cf_nodes cf)
+         (BinInt.Z.sub j (BinNums.Zpos BinNums.xH)) = 
+       Some nc ->
+       State2.nc_preempt nc <>
+       BinNums.Zpos (BinNums.xO (BinNums.xO BinNums.xH)) ->
+       Engine2.nc_slotted nc = false ->
+       List.In nd (State2.nodes s) ->
+       State2.n_id nd = j ->
+       Engine2.nd_inf nd = false ->
+       List.In sv (State2.n_servers nd) ->
+       State2.sv_cust sv = Some v ->
+       Clock2p.TleftOK s' /\
+       (exists (vx' : State2.ind) (tl : BinNums.Z),
+          Engine2.find_ind v (State2.inds s') = Some vx' /\
+          State2.i_tleft vx' = Some tl /\ BinInt.Z.le BinNums.Z0 tl).
+Proof. exact Clock2p.preempt_at_boundary_partial. Qed.
+Print Assumptions preempt_at_boundary_partial.
+
+Theorem interrupt_service_tleft_partial :
+  forall (cf : State2.config) (fl : nat) (j i pre : BinNums.Z)
+         (s : State2.sim) (u : unit) (s' : State2.sim) 
+         (x : State2.ind),
+       Engine2.interrupt_service cf fl j i pre s = State2.Ok (u, s') ->
+       pre <> BinNums.Zpos (BinNums.xO (BinNums.xO BinNums.xH)) ->
+       Engine2.find_ind i (State2.inds s) = Some x ->
+       option_map State2.i_tleft (Engine2.find_ind i (State2.inds s')) =
+       Some
+         (Some (BinInt.Z.sub (Engine2.numo (State2.i_send x)) (State2.now s))) /\
+       (forall k : BinNums.Z,
+        k <> i ->
+        option_map State2.i_tleft (Engine2.find_ind k (State2.inds s')) =
+        option_map State2.i_tleft (Engine2.find_ind k (State2.inds s))).
+Proof. exact Clock2p.interrupt_service_tleft_partial. Qed.
+Print Assumptions interrupt_service_tleft_partial.
+
+Theorem interrupt_at_boundary_partial :
+  forall (cf : State2.config) (fl : nat) (j i pre : BinNums.Z)
+         (s : State2.sim) (u : unit) (s' : State2.sim) 
+         (nc : State2.ncfg) (nd : State2.node) (sv : State2.server),
+       Clock2p.Clk2p cf s ->
+       Engine2.interrupt_service cf fl j i pre s = State2.Ok (u, s') ->
+       pre <> BinNums.Zpos (BinNums.xO (BinNums.xO BinNums.xH)) ->
+       Engine2.nthZ (State2.cf_nodes cf)
+         (BinInt.Z.sub j (BinNums.Zpos BinNums.xH)) = 
+       Some nc ->
+       Engine2.nc_slotted nc = false ->
+       List.In nd (State2.nodes s) ->
+       State2.n_id nd = j ->
+       Engine2.nd_inf nd = false ->
+       List.In sv (State2.n_servers nd) ->
+       State2.sv_cust sv = Some i ->
+       Clock2p.TleftOK s' /\
+       (exists (x' : State2.ind) (tl : BinNums.Z),
+          Engine2.find_ind i (State2.inds s') = Some x' /\
+          State2.i_tleft x' = Some tl /\ BinInt.Z.le BinNums.Z0 tl).
+Proof. exact Clock2p.interrupt_at_boundary_partial. Qed.
+Print Assumptions interrupt_at_boundary_partial.
+
+Theorem resume_end_not_past_partial :
+  forall (cf : State2.config) (j i sid : BinNums.Z) 
+         (s : State2.sim) (u : unit) (s' : State2.sim) 
+         (x : State2.ind) (nd : State2.node) (tl : BinNums.Z),
+       Engine2.start_give cf j i sid s = State2.Ok (u, s') ->
+       Preempt2.Idx s ->
+       Engine2.find_ind i (State2.inds s) = Some x ->
+       Preempt2.node_at s j = Some nd ->
+       State2.i_smark x = BinNums.Zpos BinNums.xH ->
+       State2.i_tleft x = Some tl ->
+       BinInt.Z.le BinNums.Z0 tl ->
+       exists x' : State2.ind,
+         Engine2.find_ind i (State2.inds s') = Some x' /\
+         State2.i_send x' = Some (BinInt.Z.add (State2.now s) tl) /\
+         Clock2p.EndGood (State2.now s) x'.
+Proof. exact Clock2p.resume_end_not_past_partial. Qed.
+Print Assumptions resume_end_not_past_partial.
+
+Theorem clk2pt_b_sound :
+  forall (cf : State2.config) (s : State2.sim),
+       Clock2p.clk2pt_b cf s = true -> Clock2p.Clk2pt cf s.
+Proof. exact Clock2p.clk2pt_b_sound. Qed.
+Print Assumptions clk2pt_b_sound.
+
+Theorem linkb_b_sound :
+  forall s : State2.sim, Clock2p.linkb_b s = true -> Clock2p.LinkB s.
+Proof. exact Clock2p.linkb_b_sound. Qed.
+Print Assumptions linkb_b_sound.
+
+Theorem px_run_clk2pt :
+  forall (n : nat) (s : State2.sim),
+       Codec2.run_many Clock2p.px_cf Clock2p.px_s0
+         (List.repeat Clock2p.px_d n) = State2.Ok s ->
+       Clock2p.Clk2pt Clock2p.px_cf s /\
+       BinInt.Z.le BinNums.Z0 (State2.now s).
+Proof. exact Clock2p.px_run_clk2pt. Qed.
+Print Assumptions px_run_clk2pt.
+
+Theorem qx_run_clk2pt :
+  forall (n : nat) (s : State2.sim),
+       Codec2.run_many Clock2p.qx_cf Clock2p.qx_s0
+         (List.repeat Clock2p.qx_d n) = State2.Ok s ->
+       Clock2p.Clk2pt Clock2p.qx_cf s.
+Proof. exact Clock2p.qx_run_clk2pt. Qed.
+Print Assumptions qx_run_clk2pt.
